@@ -58,6 +58,26 @@ pub fn generate(tier: Tier, seed: u64) -> Vec<Sh> {
             out.extend(shapes::depth2(sig, w, true));
         }
     }
+    // depth 2, structured operands in two positions at once (rules that look at both operands)
+    let ws3: Vec<u32> = match tier {
+        Tier::Quick => vec![1, 5, 65],
+        Tier::Thorough => vec![1, 2, 5, 8, 33, 64, 65, 128],
+    };
+    for &w in ws3.iter() {
+        let mut sigs = shapes::signatures(Ty::BV(w), w, true);
+        if w != 1 {
+            sigs.extend(shapes::signatures(Ty::BV(1), w, true).into_iter().filter(|s| {
+                matches!(s.op, Op::Equal | Op::Ugt | Op::Sgt | Op::Uge | Op::Sge | Op::ArrayEqual)
+            }));
+        }
+        sigs.extend(shapes::signatures(Ty::Arr(2, w.min(33)), w, true));
+        for sig in sigs.iter().filter(|s| s.kids.len() >= 2) {
+            out.extend(shapes::depth2_pairs(sig, w, true));
+        }
+    }
+    for &w in ws.iter() {
+        out.extend(shapes::slice_concat_family(w));
+    }
     // seeded deeper DAGs
     let n = tier.pick(3000usize, 60000usize);
     let cfg_small = RandCfg { max_depth: 5, div: true, widths: vec![1, 2, 3, 4, 5, 8] };
